@@ -163,6 +163,10 @@ class PageCache(Entity):
         oldest_id, oldest = next(iter(self._pages.items()))
         if oldest.dirty:
             yield self._disk_write_latency_s
+            if oldest_id not in self._pages:
+                # A concurrent operation evicted this victim during the write
+                # latency; the caller looks at the cache size again.
+                return
             self._dirty_writebacks += 1
 
         del self._pages[oldest_id]
